@@ -162,6 +162,10 @@ Loop:
 				err = krberror.Errorf(e, krberror.EncodingError, "error unmashalling ETYPE-INFO2 data")
 				return
 			}
+			if len(info) < 1 {
+				// An empty ETYPE-INFO2 (not valid, RFC 4120 requires at least one entry) names no etype.
+				continue
+			}
 			etypeID = info[0].EType
 			break Loop
 		case patype.PA_ETYPE_INFO:
@@ -169,6 +173,10 @@ Loop:
 			if e != nil {
 				err = krberror.Errorf(e, krberror.EncodingError, "error unmashalling ETYPE-INFO data")
 				return
+			}
+			if len(info) < 1 {
+				// ETYPE-INFO is a SEQUENCE OF that may be empty: it then names no etype.
+				continue
 			}
 			etypeID = info[0].EType
 		}
